@@ -30,7 +30,11 @@ def judge(text, impl, aux):
             import re as _re
             if _re.search(r"ans|_", text, _re.I):
                 return "ignore"          # the previous answer may be huge; the model may have lost track of it
-            if m and not m.startswith("unsupported") and len(m) < 2000 and m.split(" ")[0] in ("number", "conv", "convnone", "def", "list", "duration", "err"):
+            # (an error reply is not evidence of a small result: its message renders the operands, which may be
+            # astronomically large; neither is a request for thousands of digits)
+            if _re.search(r"digits\s+[0-9]{4,}", text):
+                return "ignore"
+            if m and not m.startswith("unsupported") and "float" not in m and len(m) < 2000 and m.split(" ")[0] in ("number", "conv", "convnone", "def", "list", "duration"):
                 return "no answer within the budget although the exact result is small (the model's answer: %s)" % m[:120]
             return "ignore"
         return "no answer within the budget for an input whose result is small"
@@ -106,7 +110,7 @@ def run(c):
     c.assumptions += [
         "query_never_panics covers eval_query and eval_expr of the model (Number-valued evaluation, conversions, unit lists, temperature conversions, definition display, units for, factorize); its two per-query hypotheses (no empty product node in the conversion target; alias expansion of a displayed name ends) are evaluated by the model driver on every line of the stream (`model-hypothesis-violated` would be a disagreement), its two database hypotheses by `rinkmodel ctxok`; dates, substances as values, search and rendering are outside the model (`unsupported`) and covered by the stream only",
         "unit exponents are unbounded integers in the model: the lines of the `exponent-edge` family (every operator, suffix and command on operands whose unit exponents are +-(2^63-1) or +-2^62) are judged for panic / abort / time-out only, not compared with the model",
-        "cheap / expensive is a lexical bound computed by the generator (harness/src/gen_totality.rs::classify): an input is expensive when it has two or more power-like operators (^, **, <<, >>, superscripts, exp, factorize), a number of four or more digits right after one of them or after an exponent marker or `digits` / `base`, or a power applied to the previous answer; only a time-out on a cheap input is a violation - or on an expensive one whose exact answer the Lean model computed and found small (under 2000 characters)",
+        "cheap / expensive is a lexical bound computed by the generator (harness/src/gen_totality.rs::classify): an input is expensive when it has two or more power-like operators (^, **, <<, >>, superscripts, exp, factorize), a number of four or more digits right after one of them or after an exponent marker or `digits` / `base`, or a power applied to the previous answer; only a time-out on a cheap input is a violation - or on an expensive one whose exact answer the Lean model computed, as an exact value (not an error, whose message renders the operands, and not a machine float, which the model does not compute), and found small (under 2000 characters), the request not being one for thousands of digits",
         "the budget is 3 s per input on a loaded machine; a time-out is re-run alone with 60 s before it counts",
         "the context is long-lived: sessions of 10-50 inputs share one Context (ans, the pinned clock), sessions are separated by `reset`",
     ]
